@@ -1719,7 +1719,7 @@ def check_concurrent_counters(ga_paths, fns_tokio, ctx, solver):
     per_call = {}
     nwrap = 0
     expect = {"save_credential": lambda o: o["result"]["saved"] and o["result"]["save_ok"], "update_credential": lambda o: o["result"]["updated"] and o["result"]["update_ok"],
-              "find_credentials": lambda o: o["result"]["found"] == 1, "get_info": lambda o: o["result"]["info"] == "forced"}
+              "find_credentials": lambda o: o["result"]["found"] == 1, "get_info": lambda o: o["result"]["info"] == {"full": "full", "non_discoverable": "non-discoverable"}.get(o["scenario"].get("capability"), "forced")}
     for lock, ty in (("mutex", "Arc<tokio::sync::Mutex<S>>"), ("rwlock", "Arc<tokio::sync::RwLock<S>>")):
         ok = True
         for m in ("find_credentials", "update_credential", "save_credential", "get_info"):
@@ -1732,7 +1732,9 @@ def check_concurrent_counters(ga_paths, fns_tokio, ctx, solver):
             done = [q for q in Executor(blk).run() if q.end and q.end[0] == "return" and q.end[1][0] == "ctor" and q.end[1][1] == "Ready"]
             if not done:
                 raise Shape("the %s wrapper's %s has no completing path" % (lock, m))
-            sc = [{"op": "wrapper_ops", "lock": lock, "rk": rk, "up": up, "uv": uv} for rk in (True, False) for up in (True, False) for uv in (False, True)]
+            # the wrapped store reports each discoverability capability in turn (a wrapper may branch on get_info)
+            sc = [{"op": "wrapper_ops", "lock": lock, "rk": rk, "up": up, "uv": uv, "capability": cap} for cap in ("forced", "full", "non_discoverable")
+                  for rk in (True, False) for up in (True, False) for uv in (False, True)]
             bad = lambda o, m=m: m in o["result"]["deadlock"] or not expect[m](o)
             for q in done:
                 nwrap += 1
@@ -2283,6 +2285,10 @@ def _client_variants():
     vs.append(dict(base, origin="https://future.1password.com:8443"))
     vs.append(dict(base, origin="https://login.future.1password.com", rp_id="1password.com"))
     vs.append(dict(base, custom_hash=True))
+    # a caller-supplied hash need not be 32 bytes long (SHA-512, SHA-1, empty): it is signed as given
+    vs.append(dict(base, custom_hash=True, custom_hash_len=64))
+    vs.append(dict(base, custom_hash=True, custom_hash_len=20))
+    vs.append(dict(base, custom_hash=True, custom_hash_len=0))
     vs.append(dict(base, params="empty"))
     vs.append(dict(base, params="rs256_first"))
     vs.append(dict(base, params="unknown_type_only"))
